@@ -140,8 +140,38 @@ def build_program(shape: str, pattern: str, deps: tuple, extras: str, pos: str =
                 steps.append(("svc", f"svc:{p}", [("forever",)]))
             if extras == "gen" and phase == "start":
                 nd["gen_start"] = True
+            if extras == "addc":
+                steps.append(("addc",))
             nd[phase] = steps
     return {"shape": shape, "pattern": pattern, "deps": [list(d) for d in deps], "extras": extras, "pos": pos, "pub": pub, "tree": spec}
+
+
+def build_twofail(shape: str, phase: str, parent_has_start: bool) -> dict | None:
+    """Two sibling leaves fail in the same scheduling round (both raise at once when they are started): whatever
+    start_component does with the two errors, no ancestor's start() may run and the root is not returned."""
+    import copy
+
+    spec = copy.deepcopy(SHAPES[shape])
+    target = None
+    for p, nd in paths(spec):
+        leaves_ = [c for c in nd.get("children", []) if not c.get("children")]
+        if len(leaves_) >= 2:
+            target = (p, nd, leaves_[:2])
+            break
+    if target is None:
+        return None
+    failing = []
+    for p, nd in paths(spec):
+        nd["prepare"] = None
+        nd["start"] = [("add", "RA", resname(p, "start"), f"{p}:start")] if (parent_has_start or not nd.get("children")) else None
+    tp, tnd, two = target
+    for c in two:
+        cp = f"{tp}.{c['alias']}" if tp else c["alias"]
+        c[phase] = [("fail", "E")]
+        if phase == "prepare":
+            c["start"] = [("add", "RA", resname(cp, "start"), f"{cp}:start")]
+        failing.append(cp)
+    return {"shape": shape, "twofail": phase, "failing": failing, "tree": spec, "pattern": "twofail", "deps": [], "extras": "plain", "pos": "before", "pub": "res"}
 
 
 def candidate_deps(shape: str) -> list[tuple]:
@@ -199,7 +229,7 @@ class C05(E1Check):
                     step = 1 if tier == "thorough" else max(1, len(pairs) // 25)
                     depsets += [tuple(p) for p in pairs[::step]]
                 for deps in depsets:
-                    for extras in (("plain", "tdres", "svc", "gen") if not deps else ("plain",)):
+                    for extras in (("plain", "tdres", "svc", "gen", "addc") if not deps else ("plain",)):
                         for pos in (("before", "after", "opt") if deps else ("before",)):
                             for pub in (("res", "sync", "async", "union", "falsy") if len(deps) == 1 else ("res",)):
                                 if pattern == "inherited" and (pub != "res" or pos != "before"):
@@ -209,6 +239,11 @@ class C05(E1Check):
                                 p = build_program(shape, pattern, deps, extras, pos, pub)
                                 if p is not None:
                                     progs.append(p)
+            for phase in ("prepare", "start"):
+                for phs in (True, False):
+                    p = build_twofail(shape, phase, phs)
+                    if p is not None:
+                        progs.append(p)
         return progs
 
     def bound(self, tier: str, program: Any) -> int:
@@ -257,6 +292,22 @@ class C05(E1Check):
                 k = (ev[0], ev[1], ev[2])
                 counts[k] = counts.get(k, 0) + 1
                 idx.setdefault(k, i)
+        if program.get("twofail"):
+            failing = program["failing"]
+            if "exc" not in st:
+                fail("start-order", f"start_component returned although {program['twofail']}() of {failing} raised and never returned")
+            for p, nd in ps:
+                if any(f == p or f.startswith(p + ".") or p == "" for f in failing) and p not in failing:
+                    if ("phase+", p, "start") in idx:
+                        fail("start-order", f"start() of {p!r} was called although {program['twofail']}() of its descendants {failing} never returned")
+            for f in failing:
+                if program["twofail"] == "prepare" and ("phase+", f, "start") in idx:
+                    fail("start-order", f"start() of {f!r} was called although its prepare() raised")
+            return
+        for ev in tr:
+            if ev[0] == "addc-accepted":
+                fail("late-child", f"add_component() called from {ev[2]}() of {ev[1]!r} was accepted: the component hierarchy is instantiated before any "
+                                   f"prepare()/start() runs, so the new child can never be part of it")
         if "exc" in st:
             fail("start-failed", f"start_component raised {st['exc']!r}")
             return
